@@ -67,6 +67,47 @@ def r1(ctx):
                 f'{ok_clear}, other writes: {[norm(w[2]) for w in others]})', raw.loc())
 
 
+def r1b(ctx):
+    """keyword partition: every recognised-but-unsupported *frame* keyword clears the active frame."""
+    from ..tb import ModuleTables, Opaque
+    m = ctx.model
+    par, make, lexers, raw, mod = ds9.reader_funcs(m)
+    pre = [st for st in raw.node.body if isinstance(st, (ast.Assign, ast.AugAssign))]
+    t = ModuleTables(m, raw.module, stmts=pre, env=dict(tables(m, raw.module).env)).env
+    need = ('supported_frames', 'unsupported_frames', 'supported_shapes', 'unsupported_shapes',
+            'unsupported_frames_shapes', 'valid_frames_shapes')
+    for k in need:
+        ctx.need(isinstance(t.get(k), list) and not any(isinstance(x, Opaque) for x in t[k]), raw.qualname,
+                 f'keyword table {k} not evaluable')
+    skip = set(t['unsupported_frames_shapes'])
+    clears = set(t['unsupported_frames'])
+    shapes = set(t['unsupported_shapes'])
+    stay = sorted(skip - shapes - clears)
+    if stay:
+        ctx.bad(raw.qualname.split(':')[1], f'frame-not-cleared:{stay[0]}',
+                f'the frame keywords {stay[:6]}{"..." if len(stay) > 6 else ""} are skipped as unsupported but are not in the '
+                'set that clears the active frame: regions after such a line are read in the *previous* frame', raw.loc())
+    else:
+        ctx.ok(f'{raw.qualname.split(":")[1]}:keyword-partition',
+               f'{len(clears)} unsupported frame keywords all clear the frame; {len(shapes)} unsupported shapes do not')
+    valid = set(t['valid_frames_shapes'])
+    want = set(t['supported_frames']) | set(t['supported_shapes']) | clears | shapes
+    if valid != want or (set(t['supported_frames']) & clears):
+        ctx.bad(raw.qualname.split(':')[1], 'keyword-tables',
+                f'valid keyword set is not the disjoint union of the four keyword lists (difference: {sorted(valid ^ want)[:6]})',
+                raw.loc())
+    else:
+        ctx.ok(f'{raw.qualname.split(":")[1]}:keyword-tables', 'valid = supported frames + shapes + unsupported frames + shapes')
+    # DS9 frame vocabulary (reference list)
+    ds9_unsup = {'physical', 'linear', 'amplifier', 'detector', 'tile', 'wcs', 'wcs0'} | {f'wcs{c}' for c in 'abcdefghijklmnopqrstuvwxyz'}
+    miss = sorted(ds9_unsup - clears)
+    if miss:
+        ctx.bad(raw.qualname.split(':')[1], f'ds9-frames-missing:{miss[0]}',
+                f'DS9 frame keywords {miss[:6]} do not clear the active frame', raw.loc())
+    else:
+        ctx.ok(f'{raw.qualname.split(":")[1]}:ds9-frames', 'every DS9 frame keyword outside the supported subset clears the frame')
+
+
 def r2(ctx):
     m = ctx.model
     par, make, lexers, raw, mod = ds9.reader_funcs(m)
@@ -340,6 +381,7 @@ def r5(ctx):
 
 RULES = [
     RuleDef('R1', 'no region without a frame; frame state persistence', r1, 2),
+    RuleDef('R1b', 'unsupported frame keywords all clear the active frame (keyword partition)', r1b, 3),
     RuleDef('R2', 'metadata precedence; sign-derived include', r2, 2),
     RuleDef('R3', 'coordinate / size / angle lexing constants', r3, 5),
     RuleDef('R4', 'parameter templates per shape (symbolic parse), annulus expansion, frame names', r4, 27),
